@@ -28,6 +28,7 @@ func collect(repo string, f *facts) {
 	bufferFacts(f)
 	diskFacts(f)
 	reloadFacts(f)
+	stopFacts(f)
 }
 
 // ---- C16: Must… / panic sites in constructors ----
@@ -1235,4 +1236,124 @@ func reloadFacts(f *facts) {
 		}
 	}
 	f.strs["reload_initiate_order"] = io
+}
+
+// ---- C18 / C19: stop path and metric call sites ----
+func stopFacts(f *facts) {
+	const sess = "output/baseoutput/clientsession.go"
+	const work = "output/baseoutput/clientworker.go"
+	f.note["stop_client_selects"] = "per function: 1 if every select statement has a case on inputClosed / a closed-channel check of inputChannel, else 0"
+	f.prs["stop_client_selects"] = nil
+	for _, loc := range [][3]string{{sess, "resendLeftovers", "clientSession"}, {sess, "processInput", "clientSession"}, {sess, "sendChunk", "clientSession"}, {work, "runSession", "ClientWorker"}} {
+		v := "0"
+		if fd := fn(loc[0], loc[1], loc[2]); fd != nil {
+			all, n := true, 0
+			inspect(fd.Body, func(x ast.Node) bool {
+				if sel, ok := x.(*ast.SelectStmt); ok {
+					n++
+					t := src(sel)
+					if !strings.Contains(t, "inputClosed.Channel()") && !(strings.Contains(t, "<-session.inputChannel") && strings.Contains(t, "if !ok")) {
+						all = false
+					}
+				}
+				return true
+			})
+			if all && n > 0 {
+				v = "1"
+			}
+		}
+		f.prs["stop_client_selects"] = append(f.prs["stop_client_selects"], [2]string{loc[1], v})
+	}
+	f.note["stop_abort_on_stop"] = "NewClientWorker: the stop signal's callback aborts the active session"
+	var ab []string
+	if fd := fn(work, "NewClientWorker", ""); fd != nil {
+		inspect(fd.Body, func(x ast.Node) bool {
+			if c, ok := x.(*ast.CallExpr); ok {
+				switch src(c.Fun) {
+				case "client.inputClosed.Next", "sess.Abort":
+					ab = append(ab, src(c.Fun))
+				}
+			}
+			return true
+		})
+	}
+	f.strs["stop_abort_on_stop"] = ab
+	f.note["stop_bounded_waits"] = "Wait(...) / WaitForZero(...) calls with a timeout on the stop path"
+	var bw []string
+	for _, loc := range [][3]string{{sess, "collectLeftovers", "clientSession"}, {"buffer/hybridbuffer/bufferer.go", "Destroy", "bufferer"},
+		{"buffer/hybridbuffer/chunkmanager.go", "WaitPendingChunks", "chunkManager"}, {work, "run", "ClientWorker"}} {
+		if fd := fn(loc[0], loc[1], loc[2]); fd != nil {
+			inspect(fd.Body, func(x ast.Node) bool {
+				if c, ok := x.(*ast.CallExpr); ok {
+					if se, ok := c.Fun.(*ast.SelectorExpr); ok && (se.Sel.Name == "Wait" || se.Sel.Name == "WaitForZero") && len(c.Args) == 1 {
+						bw = append(bw, src(c))
+					}
+				}
+				return true
+			})
+		}
+	}
+	f.strs["stop_bounded_waits"] = bw
+	f.note["stop_io_deadlines"] = "forwardConnection: the deadline call each I/O method makes first"
+	var dl []string
+	for _, m := range []string{"SendChunk", "SendPing", "ReadChunkAck"} {
+		if fd := fn("output/fluentdforward/clientworker.go", m, "forwardConnection"); fd != nil && len(fd.Body.List) > 0 {
+			t := src(fd.Body.List[0])
+			switch {
+			case strings.Contains(t, "SetWriteDeadline(deadline)"):
+				dl = append(dl, m+":SetWriteDeadline")
+			case strings.Contains(t, "SetReadDeadline(deadline)"):
+				dl = append(dl, m+":SetReadDeadline")
+			}
+		}
+	}
+	f.strs["stop_io_deadlines"] = dl
+	f.note["metric_client_sites"] = "where the client counts forwarding / forwarded / acknowledged"
+	var cs []string
+	if fd := fn(sess, "sendChunk", "clientSession"); fd != nil {
+		inspect(fd.Body, func(x ast.Node) bool {
+			switch y := x.(type) {
+			case *ast.CommClause:
+				if y.Comm != nil && strings.Contains(src(&ast.BlockStmt{List: y.Body}), "session.metrics.OnForwarded(chunk)") {
+					cs = append(cs, "sendChunk: case "+src(y.Comm)+": OnForwarded")
+				}
+			case *ast.ExprStmt:
+				if src(y.X) == "session.metrics.OnForwarding(chunk)" {
+					cs = append(cs, "sendChunk: OnForwarding")
+				}
+			}
+			return true
+		})
+	}
+	if fd := fn(sess, "runAcknowledger", "clientSession"); fd != nil {
+		var seq []string
+		inspect(fd.Body, func(x ast.Node) bool {
+			if c, ok := x.(*ast.CallExpr); ok {
+				switch src(c.Fun) {
+				case "session.onChunkAcked":
+					seq = append(seq, "onChunkAcked")
+				case "session.metrics.OnAcknowledged":
+					seq = append(seq, "OnAcknowledged")
+				}
+			}
+			return true
+		})
+		cs = append(cs, "runAcknowledger: "+strings.Join(seq, ", "))
+	}
+	f.strs["metric_client_sites"] = cs
+	f.note["metric_pending_sites"] = "chunkManager On* callbacks: what each does to the pending gauge (directly or through a callee)"
+	f.prs["metric_pending_sites"] = nil
+	for _, m := range []string{"OnChunkInput", "OnChunkInputRecovered", "OnChunkConsumed", "OnChunkLeftover", "OnChunkCorrupted", "OnChunkDropped"} {
+		v := "0" // 1 = Inc, 2 = Dec
+		if fd := fn("buffer/hybridbuffer/chunkmanager.go", m, "chunkManager"); fd != nil {
+			t := src(fd.Body)
+			switch {
+			case strings.Contains(t, "man.metrics.pendingChunks.Inc()"):
+				v = "1"
+			case strings.Contains(t, "man.metrics.pendingChunks.Dec()"):
+				v = "2"
+			}
+		}
+		f.prs["metric_pending_sites"] = append(f.prs["metric_pending_sites"], [2]string{m, v})
+	}
 }
